@@ -171,7 +171,7 @@ Definition run_op (s : sf) (l : list N) : option (list N * sf * list N) :=
                  | Panic => [26; 2]
                  end in
       Some (out, s, r)
-  | 30 :: r =>
+  | 30 :: _ :: _ :: _ :: _ :: r =>
       match open_image (flatten (tiles s)) with
       | Ok s' => Some ([30; 0], s', r)
       | Err => Some ([30; 1], s, r)
